@@ -621,6 +621,48 @@ def args_worker(_):
             acc.violation("C19/derived-object-shares-state/public_key-%s" % c,
                           "%s: key.public_key() hands out the key's own point object: after 'pub.pointQ *= 3' the PRIVATE key exports a "
                           "different public key" % c, {"part": "args", "label": "public_key-" + c})
+    # ---- the result of a point operation is a NEW object: changing it in place never reaches an operand --------------------
+    def pval(P):
+        try:
+            return ("inf",) if P.is_point_at_infinity() else (tuple(map(int, P.xy)) if hasattr(P, "xy") else (int(P.x),))
+        except Exception as e:  # noqa
+            return ("exc", type(e).__name__)
+
+    for c in ("p192", "p224", "p256", "p384", "p521", "ed25519", "ed448", "curve25519", "curve448"):
+        G = ECC._curves[c].G
+        order = int(ECC._curves[c].order)
+        mont = c.startswith("curve")
+        other = G * 5
+        operands = [("G", lambda: G * 1), ("7G", lambda: G * 7), ("infinity", lambda: G.point_at_infinity()),
+                    ("order*G", lambda: G * order)]
+        ops = [("copy", lambda P: P.copy()), ("P*0", lambda P: P * 0), ("P*1", lambda P: P * 1), ("P*3", lambda P: P * 3),
+               ("3*P", lambda P: 3 * P), ("P*order", lambda P: P * order), ("point_at_infinity", lambda P: P.point_at_infinity())]
+        if not mont:
+            ops += [("neg", lambda P: -P), ("P+other", lambda P: P + other), ("P+infinity", lambda P: P + P.point_at_infinity())]
+        for oname, mk in operands:
+            for opname, op in ops:
+                acc.count("transitions", 2)
+                acc.count("states")
+                acc.seen("argcalls", "result-is-new-%s-%s-%s" % (c, oname, opname))
+                lab = {"part": "args", "label": "result-%s-%s-%s" % (c, oname, opname)}
+                try:
+                    P = mk()
+                    before = pval(P)
+                    R = op(P)
+                    if R is P:
+                        acc.violation("C19/result-aliases-operand/%s/%s" % (c, opname),
+                                      "%s: %s on the point %s returns the operand object itself" % (c, opname, oname), lab)
+                        continue
+                    R.set(other)
+                    if pval(P) == before:
+                        R *= 2
+                except Exception as e:  # noqa
+                    acc.observe("result-is-new probe: %s %s on %s raised %s" % (c, opname, oname, type(e).__name__))
+                    continue
+                if pval(P) != before:
+                    acc.violation("C19/result-aliases-operand/%s/%s" % (c, opname),
+                                  "%s: after R = %s on the point %s, changing R in place (set / *=) changed the operand from %s to %s"
+                                  % (c, opname, oname, short(before), short(pval(P))), lab)
     acc.sample({"part": "arguments", "calls": sorted(acc.distinct.get("argcalls", ()))[:8]})
     return acc
 
